@@ -3241,6 +3241,11 @@ class Mailbox:
 
         mbox_match = ref_mbox_name + mbox_match
 
+        # INBOX is case-insensitive; we store it as "inbox".
+        #
+        if mbox_match.lower() == "inbox":
+            mbox_match = "inbox"
+
         # Escape regex metacharacters, then convert IMAP wildcards.
         #
         mbox_match = "^" + re.escape(mbox_match) + "$"
